@@ -84,20 +84,31 @@ def execute(cases, fuel=8000, timeout_ms=5000, model=True):
         again = run_impl([c.req for c in slow], timeout_ms=timeout_ms * 10, jobs=4)
         for c, a in zip(slow, again):
             c.impl = a
-    return {'impl_s': round(t1 - t0, 1), 'model_s': round(t2 - t1, 1), 'timeouts_rerun': len(slow)}
+    # the model is defined with a step budget (fuel); an implementation run that ends normally while the model driver
+    # ran out of its budget is beyond the driver's reach, not a disagreement: asked again with eight times the budget,
+    # and counted as unanswered if that is still not enough
+    starved = [c for c in cases if model and (c.model or '').startswith('ABN:fuel') and not c.impl.startswith(('TIMEOUT', 'CRASH', 'PANIC'))]
+    if starved and len(starved) <= 100:
+        again = run_model([c.req for c in starved], fuel=fuel * 8, jobs=8)
+        for c, b in zip(starved, again):
+            c.model = b
+    return {'impl_s': round(t1 - t0, 1), 'model_s': round(t2 - t1, 1), 'timeouts_rerun': len(slow), 'fuel_rerun': len(starved)}
 
 DRIVER_TIMEOUT = 'CRASH:rc=-9:' + hx('driver timeout')
 
 def model_unanswered(cases):
     """cases the model driver did not answer within the harness's own time limit (a limit of the
     machinery — the model is a function of the input alone —, so neither agreement nor disagreement)"""
-    return [c for c in cases if c.model is not None and c.model.startswith(DRIVER_TIMEOUT)]
+    return [c for c in cases if c.model is not None and (c.model.startswith(DRIVER_TIMEOUT) or _starved(c))]
+
+def _starved(c):
+    return c.model.startswith('ABN:fuel') and not c.impl.startswith(('TIMEOUT', 'CRASH', 'PANIC'))
 
 def disagreements(cases):
     """cases on which implementation and model differ on the compared fields"""
     out = []
     for c in cases:
-        if c.model is None or c.model.startswith(DRIVER_TIMEOUT):
+        if c.model is None or c.model.startswith(DRIVER_TIMEOUT) or _starved(c):
             continue
         if not same(c.impl, c.model, c.keys):
             if platform_sensitive(c.src) and not c.impl.startswith(('PANIC', 'CRASH', 'TIMEOUT')) and not c.model.startswith('ABN') and approx_same(c.impl, c.model, c.keys):
@@ -312,5 +323,8 @@ def volume_cases(kinds, tier='quick'):
         add('calls', f'recursion-noreturn-{n}', f'{V} c = 0;\n{FN} down(n) {{ {I} (n > 0) {{ c = c + 1; down(n - 1); }} }}\ndown({n});\n{P} c;\ndown(2);\n{P} c;\n', [go_v(n), go_v(n + 2)])
     for n in ([20000] if not big else [4096, 20000, 70000]):
         add('data', f'array-grown-{n}', f'{V} a = [];\n{F} ({V} i = 0; i < {n}; i = i + 1) {{ a = {APP}(a, i); }}\n{P} {LEN}(a);\n{P} a[{n - 1}];\n{P} a[0];\n', [go_v(n), go_v(n - 1), '0'])
+        add('data', f'keys-of-fresh-objects-{n}', f'{V} bad = 0;\n{F} ({V} i = 0; i < {n * 5}; i = i + 1) {{ {V} o = {{a: 1, b: 2, c: 3, d: 4}}; {I} (i % 2 == 1) {{ o = {{w: i, x: 2, y: 3, z: 4}}; }} '
+            f'{V} ks = {NAT["keys"]}(o); {V} vs = {NAT["values"]}(o); {I} (i % 2 == 1) {{ {I} (ks[0] != "w" || vs[0] != i) {{ bad = bad + 1; }} }} {E} {{ {I} (ks[0] != "a" || vs[3] != 4) {{ bad = bad + 1; }} }} }}\n{P} bad;\n', ['0'])
+        add('data', f'fresh-arrays-{n}', f'{V} bad = 0;\n{F} ({V} i = 0; i < {n * 5}; i = i + 1) {{ {V} a = [i, [i + 1, 0]]; {V} b = [0, [0, 0]]; b[1][1] = i; {I} (a[1][1] != 0 || a[1][0] != i + 1 || {LEN}(a) != 2) {{ bad = bad + 1; }} }}\n{P} bad;\n', ['0'])
         add('data', f'string-grown-{n}', f'{V} s = "";\n{F} ({V} i = 0; i < {n}; i = i + 1) {{ s = s + "ab"; }}\n{P} s == s + "";\n{P} s == s + "a";\n', ['true', 'false'])
     return out
